@@ -15,7 +15,11 @@ package pogreb
 // ranges over p so that the first byte read has the bound variable as its index)
 //@ spec func slotPos(q int64, n int64) bool = q >= 512 && q + 16 <= n && (q & 511) <= 480 && q & 15 == 0
 //@ spec func slotInSegAt(dl *datalog, m mem, q int64) bool = le16(m, int(q)+4) < 32767 && dl.segments[le16(m, int(q)+4)] != nil && le32(m, int(q)+12) >= 512 && le32(m, int(q)+8) <= 0x7fffffff && int64(le32(m, int(q)+12)) + 10 + int64(le16(m, int(q)+6)) + int64(le32(m, int(q)+8)) <= dl.segments[le16(m, int(q)+4)].file.size
-//@ spec func slotsInLog(m mem, n int64, dl *datalog) bool = forall p int64 :: slotPos(p - 12, n) && le32(m, int(p)) != 0 ==> slotInSegAt(dl, m, p - 12)
+// trig(q) is a marker without meaning (always true): a quantifier that mentions trig(q) is instantiated only where
+// a proof step names the position with trig, not at every byte read of the file
+//@ spec func trig(q int64) bool
+//@ axiom trig-all: forall q int64 :: trig(q)
+//@ spec func slotsInLog(m mem, n int64, dl *datalog) bool = forall q int64 :: trig(q) && slotPos(q, n) && le32(m, int(q)+12) != 0 ==> slotInSegAt(dl, m, q)
 //@ spec func idxInLog(db *DB) bool = slotsInLog(fData[fidOf[db.index.main.File]], db.index.main.size, db.datalog) && slotsInLog(fData[fidOf[db.index.overflow.File]], db.index.overflow.size, db.datalog)
 
 // fetchItems drains exactly one bucket chain: it returns nil only at the end of the chain, and what it queues are
@@ -26,11 +30,13 @@ package pogreb
 //@   at return: assert [C11] whole-chain: err == nil ==> bit.off == 0
 // what is queued are fresh copies of the stored bytes (never file-system memory, never a buffer that is reused)
 //@   at call append@1: assert [C14] queued-copies-are-fresh: fresh(key) && fresh(value)
-//@   at call append@1: assert [C11] queued-copies-are-the-stored-bytes: len(key) == int(sl.keySize) && len(value) == int(sl.valueSize) && sameBytes(contents(key), off(key), fData[fidOf[it.db.datalog.segments[sl.segmentID].file.File]], int(sl.offset)+6, len(key)) && sameBytes(contents(value), off(value), fData[fidOf[it.db.datalog.segments[sl.segmentID].file.File]], int(sl.offset)+6+int(sl.keySize), len(value))
+//@   at call append@1: assert [C11] queued-lengths: len(key) == int(sl.keySize) && len(value) == int(sl.valueSize)
+//@   at call append@1: assert [C11] queued-key-is-stored-key: sameBytes(contents(key), off(key), fData[fidOf[it.db.datalog.segments[sl.segmentID].file.File]], int(sl.offset)+6, len(key))
+//@   at call append@1: assert [C11] queued-value-is-stored-value: sameBytes(contents(value), off(value), fData[fidOf[it.db.datalog.segments[sl.segmentID].file.File]], int(sl.offset)+6+int(sl.keySize), len(value))
 //@   at call readKeyValue@1: cases which-file: b.file == it.db.index.main || b.file == it.db.index.overflow
 //@   at call readKeyValue@1: hint slot-on-disk: slotEncoded(fData[fidOf[b.file.File]], int(b.offset)+16*i, sl) && bucketAt(b.offset, b.file.size) && sl.offset != 0
 //@   at call readKeyValue@1: hint slot-position: slotPos(b.offset + 16*int64(i), b.file.size)
-//@   at call readKeyValue@1: hint slot-in-log: slotInSegAt(it.db.datalog, fData[fidOf[b.file.File]], b.offset + 16*int64(i))
+//@   at call readKeyValue@1: hint slot-in-log: trig(b.offset + 16*int64(i)) && slotInSegAt(it.db.datalog, fData[fidOf[b.file.File]], b.offset + 16*int64(i))
 //@   modifies it.queue, elems(item)
 //@   loop 1:
 //@     invariant it == old(it) && bit != nil && fresh(bit) && bit.overflow == it.db.index.overflow
